@@ -128,8 +128,13 @@ class Interp:
                 self.store = LogMapping(bound=size)
                 self.kind = 'lru'
 
+        self.slow = False
+
         async def f(*args, **kwargs):
             self.invocations.append((args, tuple(kwargs.items())))
+            if self.slow:
+                await aio.sleep(0)          # (concurrent calls: give the other call a chance to arrive meanwhile)
+                await aio.sleep(0)
             # a result is a value like any other: None and falsy results must be cached too
             if args and args[0] is None:
                 r = None
@@ -170,9 +175,53 @@ class Interp:
             if mk not in live:
                 del self.present[mk]
 
+    def _call2(self, op):
+        """Two calls in flight at the same time whose keyword arguments are the same pairs in opposite order."""
+        args = tuple(VALS[i] for i in op['args'])
+        kw_items = [(n, VALS[i]) for n, i in op['kwargs']]
+        kw1, kw2 = dict(kw_items), dict(reversed(kw_items))
+        mk = (args, frozenset(kw1.items()))
+        self.ncalls += 2
+        self.keys_seen.append((mk, (tuple(op['args']), tuple(map(tuple, op['kwargs'])), 'concurrent')))
+        before_keys = None if self.store is None else [_ident(k) for k in self._store_keys()]
+        n0 = len(self.invocations)
+        expect_hit = mk in self.present
+
+        async def both():
+            return await aio.gather(self.wrapped(*args, **kw1), self.wrapped(*args, **kw2))
+        self.slow = True
+        try:
+            r1, r2 = self.loop.run_until_complete(both())
+        except Exception as e:  # noqa
+            self.viol.append(V('raised', f'concurrent calls {args!r} {kw1!r} / {kw2!r} raised {e!r}', 'raised:' + type(e).__name__))
+            return
+        finally:
+            self.slow = False
+        ninv = len(self.invocations) - n0
+        desc = f'concurrent calls f(*{args!r}, **{kw1!r}) and f(*{args!r}, **{kw2!r}) on cache={self.kind}'
+        if len(kw_items) >= 2:
+            self.nontrivial = True
+        if ninv != (0 if expect_hit else 1):
+            self.viol.append(V('concurrent-equal-calls', f'{desc}: the function was invoked {ninv}x (key '
+                               f'{"stored" if expect_hit else "not stored"} before)', 'concurrent-equal-calls:invocations-%d' % min(ninv, 2)))
+        elif r1 is not r2:
+            self.viol.append(V('concurrent-equal-calls', f'{desc}: the two calls received different objects {r1!r} / {r2!r}',
+                               'concurrent-equal-calls:different-results'))
+        if ninv >= 1:
+            self.present[mk] = r1
+        if self.store is not None:
+            for k in self._store_keys():
+                if _ident(k) not in before_keys:
+                    self.assoc.setdefault(_ident(k), mk)
+            self._sync()
+
     def apply(self, op):
         if op['op'] == 'call':
             return self._call(op)
+        if op['op'] == 'call2':
+            if self.kind in ('default', 'dict', 'empty-mapping'):      # (stores that retain what they are given)
+                return self._call2(op)
+            return self._call(dict(op, op='call'))
         if self.store is None:
             return
         if op['op'] == 'clear':
@@ -300,7 +349,7 @@ def valid(case):
         if case['cache'] not in CACHES or not (1 <= case.get('size', 2) <= 3):
             return False
         for op in case['ops']:
-            if op['op'] == 'call':
+            if op['op'] in ('call', 'call2'):
                 if not all(0 <= i < len(VALS) for i in op['args']) or op.get('mirror') not in (None, 'frozenset', 'tuple', 'pairs'):
                     return False
                 names = [n for n, _ in op['kwargs']]
@@ -345,6 +394,11 @@ def machines(tier):
             def call(self, args, kwargs):
                 self.sigs.append((args, kwargs))
                 self._do({'op': 'call', 'args': args, 'kwargs': kwargs})
+
+            @rule(args=_args, kwargs=_kw)
+            def call_concurrently(self, args, kwargs):
+                self.sigs.append((args, kwargs))
+                self._do({'op': 'call2', 'args': args, 'kwargs': kwargs})
 
             @precondition(lambda self: self.sigs)
             @rule(data=st.data())
